@@ -286,10 +286,11 @@ def main(tier, seed):
         g = Gen(rng)
         g.batch(12, 45)
         if b == 0:
-            g.enums[0] = [-1, 3000000000]
-            g.decls[0] = ('struct', [('basic', 'gint8'), ('enum', 0), ('basic', 'gint8')])
-            g.decls[1] = ('struct', [('basic', 'gint8'), ('array', 70000, ('basic', 'gint8')), ('basic', 'gint32')])
-            g.decls[2] = ('struct', [('array', 70000, ('array', 70000, ('basic', 'gint16'))), ('ptr', 'utf8')])     # 9.8 GB
+            # fixed declarations are appended (earlier ones may already be referred to by their index and kind)
+            g.enums.append([-1, 3000000000])
+            g.decls.append(('struct', [('basic', 'gint8'), ('enum', len(g.enums) - 1), ('basic', 'gint8')]))
+            g.decls.append(('struct', [('basic', 'gint8'), ('array', 70000, ('basic', 'gint8')), ('basic', 'gint32')]))
+            g.decls.append(('struct', [('array', 70000, ('array', 70000, ('basic', 'gint16'))), ('ptr', 'utf8')]))     # 9.8 GB
         tmp = tempfile.mkdtemp(prefix='giv08')
         try:
             res, msg = run_batch(g, exe, tmp)
